@@ -461,7 +461,7 @@ def run(run: Run):
     run.rule('C04.R4', 'overrides are per instance: no class-level mutable state is changed in place or handed out')
     run.guard('C04.R4', check_per_instance_state, run, 'C04.R4', get_runtime(get_source()))
     run.floor('C04.R4', 6)
-    run.floor('C04.R1', 10)
+    run.floor('C04.R1', 8)
     run.floor('C04.R2', 4)
     run.floor('C04.R3', 5)
     return INFO
